@@ -9,6 +9,11 @@ func (oracleC14) Prop() string { return "C14" }
 
 func (oracleC14) Invariant(x *OCtx, v *View, m *Mon) []Violation {
 	var out []Violation
+	if x.Sc.GovRaisesMinimum {
+		// a parameter change can put an existing binding below the new minimum without any operation on it; in such
+		// runs the step clauses below (which judge every operation and every slash under the parameters in force) decide
+		return nil
+	}
 	for _, br := range v.Bindings {
 		b := br.B
 		min := minDepositOf(v, b.Pricing)
@@ -31,9 +36,43 @@ func (oracleC14) Invariant(x *OCtx, v *View, m *Mon) []Violation {
 
 func (oracleC14) Step(x *OCtx, t *Trans) []Violation {
 	a := t.Act
+	if vs := c14Step(x, t); len(vs) > 0 {
+		return vs
+	}
 	if !isBindOp(a.Kind) && a.Kind != "disable" {
 		return nil
 	}
 	x.Wit("C14:" + a.Kind + "/" + t.Res.Outcome())
 	return nil
+}
+
+// StepAll: clauses that hold under every parameter history.
+//   - a successful bind / update / enable leaves its binding, if available, at or above the minimum in force;
+//   - a binding whose deposit shrank in this step (a slash) and that is still available is at or above the minimum.
+func c14Step(x *OCtx, t *Trans) []Violation {
+	var out []Violation
+	a := t.Act
+	if (a.Kind == "bind" || a.Kind == "update" || a.Kind == "enable") && t.Res.OK() {
+		if b := t.Post.Binding(a.Svc, a.Prov); b != nil && b.Available {
+			min, dep := minDepositOf(t.Post, b.Pricing), coinAmt(b.Deposit)
+			if dep.Cmp(min) < 0 {
+				out = append(out, viol("C14", "operation-leaves-available-binding-at-minimum", a.Kind, nameOf(b.Provider),
+					fmt.Sprintf("%s succeeded and leaves (%s,%s) available with deposit %s, minimum in force for pricing %s is %s", a.Name, b.ServiceName, nameOf(b.Provider), dep, b.Pricing, min)))
+			}
+		}
+	}
+	for _, br := range t.Post.Bindings {
+		b := br.B
+		pb := t.Pre.Binding(b.ServiceName, b.Provider)
+		if pb == nil || coinAmt(b.Deposit).Cmp(coinAmt(pb.Deposit)) >= 0 {
+			continue
+		}
+		x.Wit("C14:deposit-shrank")
+		min, dep := minDepositOf(t.Post, b.Pricing), coinAmt(b.Deposit)
+		if b.Available && dep.Cmp(min) < 0 {
+			out = append(out, viol("C14", "slash-below-minimum-disables", a.Kind, nameOf(b.Provider),
+				fmt.Sprintf("deposit of (%s,%s) shrank to %s, below the minimum %s in force, and the binding is still available", b.ServiceName, nameOf(b.Provider), dep, min)))
+		}
+	}
+	return out
 }
